@@ -2,22 +2,23 @@
 Oracle: RefVM + RefResolve over the same virtual file system; monitors: FetchRecorder (ordered resolved URLs), log recorder."""
 import copy
 import functools
+import os
 import random
 import re
 
 from .. import core, refval
 from ..monitors import VirtualFS
 from ..refeval import RefRuntimeError
-from ..refvm import IncludeParseError, RefVM, norm_url
+from ..refvm import IncludeParseError, RefVM, norm_url, resolve
 
 ROOTS = ['https://host.example/a/b/main.bare', '/home/u/proj/main.bare', 'proj/main.bare', 'main.bare', 'https://host.example/main.bare', None,
          'vfs://store/a/b/main.bare', 'app:/pkg/scripts/main.bare', 'gs://bucket/main.bare', 'file:///srv/x/main.bare', 'http://h.example/a/main.bare?v=1']
-SYS_PREFIXES = ['/sys/prefix/', 'sys/', 'https://cdn.example/lib/', 'lib/sys/', '/sys/prefix/', 'mem://lib/', 'zip:/bundle/lib/']
+SYS_PREFIXES = ['/sys/prefix/', 'sys/', 'https://cdn.example/lib/', 'lib/sys/', '/sys/prefix/', 'mem://lib/', 'zip:/bundle/lib/', '/opt/sysdir/index', 'https://cdn.example/v1/index.bare']
 
 
 def plan(tier, seed):
     n = 150 if tier == 'quick' else 6000
-    return [{'part': 'trees', 'n': n, 'shard': sh, 'timeout': 3000} for sh in range(16)]
+    return [{'part': 'trees', 'n': n, 'shard': sh, 'timeout': 3000} for sh in range(16)] + [{'part': 'cli', 'n': 150 if tier == 'quick' else 3000, 'shard': 0}]
 
 
 def meta(tier):
@@ -29,11 +30,11 @@ def meta(tier):
                  '(merged statement), statements before/between/after, early return inside an included file, empty / blank / comment-only included files, globals and functions '
                  'defined by includes and used by the includer. For every tree the fault-free run and, for EVERY fetch position k, the '
                  'runs where fetch k returns nothing / raises / returns a syntactically broken text are compared with RefVM on result '
-                 'or error (type, resolved location), fetch sequence, log and globals. Non-trivial: the tree performs >= 2 fetches; '
+                 'or error (type, resolved location), fetch sequence, log and globals. The command-line interface is driven with sequences of script files (relative and absolute paths) and -c code over real files in a scratch directory. Non-trivial: the tree performs >= 2 fetches; '
                  'distinct = distinct (files, root, fault).'),
         'exhaustive': False,
         'extra': {'exhaustive_part': 'every fetch position x 3 fault kinds per tree'},
-        'assumptions': ['include statements at the top level of a file, or inside a function that is defined and called in that same file (where dynamic and lexical base resolution coincide); system includes only with a configured prefix ending in "/" (absolute path, relative path or URL)',
+        'assumptions': ['include statements at the top level of a file, or inside a function that is defined and called in that same file (where dynamic and lexical base resolution coincide); system includes with a configured prefix (absolute path, relative path or URL; ending in "/" or naming a file whose directory is meant), naming relative or absolute locations',
                         'included texts are turned into models with the real parse_script on the reference side too'],
     }
 
@@ -62,7 +63,7 @@ def build(rnd, loc, depth, files, counter, prefix):
     nkids = rnd.randint(0, 3) if depth < 4 else 0
     is_url = loc is not None and re.match(r'^[a-z]+:', loc)
     for k in range(nkids):
-        style = rnd.choice(['rel', 'sub', 'up', 'abs', 'sys', 'rel', 'sub'])
+        style = rnd.choice(['rel', 'sub', 'up', 'abs', 'sys', 'rel', 'sub', 'sysabs'])
         name = f'f{counter[0]}.bare'
         if style == 'rel':
             ref, child = name, join_dir(loc, name)
@@ -75,10 +76,14 @@ def build(rnd, loc, depth, files, counter, prefix):
         elif style == 'abs':
             ref = f'https://other.example/x{counter[0]}/{name}' if (is_url or rnd.random() < 0.3) else f'/abs{counter[0]}/{name}'
             child = ref
+        elif style == 'sysabs':
+            # a system include that names an absolute URL / absolute path is fetched from exactly there (the prefix is for relative names)
+            ref = f'https://sys.example/y{counter[0]}/{name}' if rnd.random() < 0.5 else f'/sysabs{counter[0]}/{name}'
+            child = ref
         else:
             ref = 's/' + name
-            child = prefix + ref
-        inc_line = f'include <{ref}>' if style == 'sys' else f"include '{ref}'"
+            child = resolve(prefix, ref)  # against the prefix like against a file: a prefix without a trailing "/" names a sibling
+        inc_line = f'include <{ref}>' if style in ('sys', 'sysabs') else f"include '{ref}'"
         if depth == 0 and rnd.random() < 0.25:
             # an include statement inside a function that is defined and called in this same file: it still runs in GLOBAL
             # scope (the included file logs the global cnt, not the parameter of the same name)
@@ -214,7 +219,73 @@ def check_tree(root, main, files, acc, api, prefix, only_fault=None):
         acc.sample({'root': root, 'main': main.split('\n')[:12], 'system_prefix': prefix, 'files': sorted(k for k in files if k is not None)[:8], 'fetch_sequence': ref0['fetches'][:8], 'fault_runs': len(plans) - 1})
 
 
+def run_cli(spec, acc):
+    """The command-line interface runs a SEQUENCE of scripts (files and -c code, one shared globals object): includes of a file
+    script resolve against that file, includes of inline code against the working directory - whatever ran before -, and system
+    includes come from the package. Real files in a scratch directory; the log is what the CLI prints."""
+    import contextlib
+    import io
+    import shutil
+    from bare_script import bare as cli
+    root = os.path.join(core.SCRATCH, f'c17-cli-{os.getpid()}')
+    shutil.rmtree(root, ignore_errors=True)
+    layout = {'lib.bare': "systemLog('lib in cwd')", 'd1/lib.bare': "systemLog('lib in d1')", 'd2/lib.bare': "systemLog('lib in d2')", 'd1/sub/lib.bare': "systemLog('lib in d1/sub')",
+              'd1/a.bare': "systemLog('a starts')\ninclude 'lib.bare'\ninclude 'sub/deep.bare'", 'd1/sub/deep.bare': "include 'lib.bare'\nsystemLog('deep done')",
+              'd2/b.bare': "include 'lib.bare'\ninclude '../lib.bare'\nsystemLog('b done')", 'c.bare': "include 'd2/lib.bare'\nsystemLog('c done')"}
+    want = {'d1/a.bare': ['a starts', 'lib in d1', 'lib in d1/sub', 'deep done'], 'd2/b.bare': ['lib in d2', 'lib in cwd', 'b done'], 'c.bare': ['lib in d2', 'c done']}
+    codes = {"include 'lib.bare'": ['lib in cwd'], "include 'd1/lib.bare'\nsystemLog('inline done')": ['lib in d1', 'inline done'],
+             "include <diff.bare>\nsystemLog('blocks ' + arrayLength(diffLines('a', 'b')))": ['blocks 2']}
+    for rel, text in layout.items():
+        path = os.path.join(root, rel)
+        os.makedirs(os.path.dirname(path), exist_ok=True)
+        with open(path, 'w', encoding='utf-8') as fh:
+            fh.write(text)
+    rnd = random.Random(spec['seed'] * 7919 + 149)
+    cwd = os.getcwd()
+    try:
+        os.chdir(root)
+        for i in range(spec['n']):
+            # argparse takes the file arguments as ONE contiguous group; -c options may stand before and after it
+            seq = [('code', rnd.choice(sorted(codes))) for _ in range(rnd.randint(0, 2))] + [('file', rnd.choice(sorted(want))) for _ in range(rnd.randint(0, 3))] + \
+                [('code', rnd.choice(sorted(codes))) for _ in range(rnd.randint(0, 2))]
+            if not seq:
+                seq = [('file', 'c.bare')]
+            argv, expected = [], []
+            for kind, v in seq:
+                if kind == 'file':
+                    argv.append(v if rnd.random() < 0.7 else os.path.join(root, v))
+                    expected += want[v]
+                else:
+                    argv += ['-c', v]
+                    expected += codes[v]
+            out = io.StringIO()
+            status = None
+            try:
+                with contextlib.redirect_stdout(out):
+                    cli.main(argv)
+            except SystemExit as exc:
+                status = exc.code
+            lines = [l for l in out.getvalue().split('\n') if l]
+            acc.case(('cli', json_dumps(argv)), len(seq) >= 2)
+            acc.count('cli_runs')
+            if lines != expected or status != 0:
+                acc.violation('cli-include-resolution', f'bare {argv!r} printed {lines!r:.400} (exit {status}), expected {expected!r:.400}', {'cli_argv': [a.replace(root, '<root>') for a in argv]})
+                break
+    finally:
+        os.chdir(cwd)
+        shutil.rmtree(root, ignore_errors=True)
+    acc.sample({'cli_example': ['d1/a.bare', '-c', "include 'lib.bare'"], 'expected_output': want['d1/a.bare'] + ['lib in cwd']}, limit=1)
+
+
+def json_dumps(x):
+    import json
+    return json.dumps(x)
+
+
 def run_shard(spec, acc):
+    if spec.get('part') == 'cli':
+        run_cli(spec, acc)
+        return
     api = _api()
     base = spec['seed'] * 1000003 + spec['shard'] * 7919 + 101
     for i in range(spec['n']):
